@@ -624,6 +624,14 @@ class UnionProxy:
     def __repr__(self) -> str:
         return repr(self.__target__)
 
+    def __eq__(self, other: object) -> bool:
+        if isinstance(other, UnionProxy):
+            other = other.__target__
+        return self.__target__ == other
+
+    def __hash__(self) -> int:
+        return hash(self.__target__)
+
     def __getattr__(self, attr: str) -> Any:
         return getattr(self.__target__, attr)
 
